@@ -60,6 +60,8 @@ type Config struct {
 	ActiveKnown map[string]bool
 	Tier        int
 	WantWitness bool
+	Concrete    []ReplayValue
+	Verbose     bool
 }
 
 type PathResult struct {
@@ -92,6 +94,7 @@ type engineState struct {
 	stubs      map[string]bool
 	symKeys    bool
 	panicStack string
+	uuidN      int
 }
 
 func (i *interpreter) noteStub(s string) {
@@ -203,6 +206,7 @@ func (p *Program) RunPath(harness *ssa.Function, prefix []int, solver *smt.Solve
 	ps := &PathState{
 		ctx: smt.NewCtx(), solver: solver, prefix: prefix,
 		Reached: map[string]int{}, StepCap: cfg.StepCap, ActiveKnown: cfg.ActiveKnown,
+		Concrete: cfg.Concrete, Verbose: cfg.Verbose,
 	}
 	i := &interpreter{
 		prog:               p.Prog,
